@@ -34,6 +34,15 @@ ASSUMPTIONS = ['pydicom is trusted to encode/decode data sets at both ends (the 
 
 def cases(tier, seed):
     rnd = random.Random('c15/%d' % seed)
+    # hot family: several associations receive file-backed instances at the same time, with
+    # line-level pre-emption inside the functions that build the stored file
+    for i in range(250 if tier == 'quick' else 8000):
+        yield dict(ts=rnd.choice(sorted(TSS)), cmax=rnd.choice([1024, 16384]),
+                   smax=rnd.choice([1024, 16384]), recv=rnd.choice(['tempfile', 'dir']),
+                   source='ds', nclients=rnd.choice([2, 3]), nstores=rnd.randint(1, 2),
+                   same_uid=rnd.random() < 0.3, outcome='success', size=rnd.choice([0, 10, 100]),
+                   fault=None, align=False, mixed_ts=True, hot=True, seed=seed * 100019 + i)
+    # (the bulk comes last so that a wall-clock budget cut never drops the family above)
     n = 1500 if tier == 'quick' else 100000
     for i in range(n):
         recv = rnd.choice(['tempfile', 'dir', 'dir', 'mem'])
@@ -49,14 +58,6 @@ def cases(tier, seed):
                    size=rnd.choice([0, 10, 100, 900, 4000]), fault=fault, align=rnd.random() < 0.35,
                    mixed_ts=nclients > 1 and rnd.random() < 0.6,
                    seed=seed * 100003 + i)
-    # hot family: several associations receive file-backed instances at the same time, with
-    # line-level pre-emption inside the functions that build the stored file
-    for i in range(250 if tier == 'quick' else 8000):
-        yield dict(ts=rnd.choice(sorted(TSS)), cmax=rnd.choice([1024, 16384]),
-                   smax=rnd.choice([1024, 16384]), recv=rnd.choice(['tempfile', 'dir']),
-                   source='ds', nclients=rnd.choice([2, 3]), nstores=rnd.randint(1, 2),
-                   same_uid=rnd.random() < 0.3, outcome='success', size=rnd.choice([0, 10, 100]),
-                   fault=None, align=False, mixed_ts=True, hot=True, seed=seed * 100019 + i)
 
 
 def make_ds(rnd, uid_, sop, size):
